@@ -114,3 +114,12 @@ Definition perform_note_with (step : track * list call * nat * bool -> voice -> 
   (self : track) (calls : list call) (n : nat) (vs : list voice) : track * list call * nat * performed :=
   let '(self, calls, n, ok) := fold_left step vs (self, calls, n, true) in
   (self, calls, n, if ok then PfOk else PfRaise).
+
+(** * Timeline.schedule: names, new Track objects   (trusted)
+   `existing_track.name == name` on the model's optional integer names; `Track(self, max_event_count=count, ...,
+   remove_when_done=..., name=...)` is Model.v new_track with the next free id (object identity); appending the NEW object to
+   Timeline.tracks consumes that id; the in-place mutation of an element of Timeline.tracks reached through a loop variable
+   is written back with upd_track (identity = id). *)
+Definition name_is (x : track) (nm : Z) : bool := match t_name x with Some n => n =? nm | None => false end.
+Definition register_track (tl : timeline) (x : track) : timeline :=
+  mkTL (now tl) (tracks tl ++ [x]) (actions tl) (S (next_id tl)) (def_q tl) (def_d tl) (dev_calls tl).
